@@ -11,8 +11,8 @@ EXTENDS Rtlil, Json, IOUtils, TLC
 Batch == JsonDeserialize(IOEnv.TRACE_FILE)
 Designs == Batch.traces
 
-VARIABLES tid, k, w, verdict
-vars == <<tid, k, w, verdict>>
+VARIABLES tid, k, w, mem, verdict
+vars == <<tid, k, w, mem, verdict>>
 D == Designs[tid]
 
 RECURSIVE ApplySets(_, _, _)
@@ -22,7 +22,7 @@ ApplySets(sets, n, ww) ==         \* sets: sequence of <<bits, value>>
 W0 == ApplySets(D.init, Len(D.init), [i \in 1..D.n |-> 0])
 
 Init == /\ tid \in 1..Len(Designs) /\ k = 0 /\ verdict = ""
-        /\ w = [i \in 1..2 |-> 0]
+        /\ w = [i \in 1..2 |-> 0] /\ mem = <<>>
 
 (* first mismatching observation of a step, as <<name, expected (pysim), rtlil value>>, or <<>> *)
 Mismatch(exps, ww) ==
@@ -32,29 +32,31 @@ Mismatch(exps, ww) ==
 
 Start ==                      \* power-on: registers at their initial values, inputs 0, settle
     /\ verdict = "" /\ k = 0
-    /\ LET w1 == Settle(D.nodes, W0) IN
-       IF ~Consistent(D.nodes, w1)
-       THEN /\ verdict' = "order" /\ PrintT(<<"REJ", tid, 0, "netlist_not_settled_by_given_order">>) /\ UNCHANGED <<w, k, tid>>
-       ELSE /\ w' = w1 /\ k' = 1 /\ UNCHANGED <<verdict, tid>>
+    /\ LET w1 == Settle(D.nodes, W0, D.mems) IN
+       IF ~Consistent(D.nodes, w1, D.mems)
+       THEN /\ verdict' = "order" /\ PrintT(<<"REJ", tid, 0, "netlist_not_settled_by_given_order">>) /\ UNCHANGED <<w, mem, k, tid>>
+       ELSE /\ w' = w1 /\ mem' = D.mems /\ k' = 1 /\ UNCHANGED <<verdict, tid>>
 
 Step ==
     /\ verdict = "" /\ k >= 1 /\ k <= Len(D.steps)
     /\ LET st   == D.steps[k]
            wIn  == ApplySets(st.set, Len(st.set), w)
-           wMid == Settle(D.nodes, wIn)
+           wMid == Settle(D.nodes, wIn, mem)
            wFf  == ApplyFfs(D.ffs, Len(D.ffs), w, wMid, wIn)
-           wNew == Settle(D.nodes, wFf)
+           wRd  == ApplyReads(D.rds, Len(D.rds), D.wrs, w, wMid, mem, wFf)
+           mNew == ApplyWrites(D.wrs, Len(D.wrs), w, wMid, mem)
+           wNew == Settle(D.nodes, wRd, mNew)
            mm   == Mismatch(st.exp, wNew) IN
-       IF ~Consistent(D.nodes, wNew)
-       THEN /\ verdict' = "order" /\ PrintT(<<"REJ", tid, k, "netlist_not_settled_by_given_order">>) /\ UNCHANGED <<w, k, tid>>
+       IF ~Consistent(D.nodes, wNew, mNew)
+       THEN /\ verdict' = "order" /\ PrintT(<<"REJ", tid, k, "netlist_not_settled_by_given_order">>) /\ UNCHANGED <<w, mem, k, tid>>
        ELSE IF mm # <<>>
-       THEN /\ verdict' = "mismatch" /\ PrintT(<<"REJ", tid, k, "rtlil_differs_from_simulator", mm>>) /\ UNCHANGED <<w, k, tid>>
-       ELSE /\ w' = wNew /\ k' = k + 1 /\ UNCHANGED <<verdict, tid>>
+       THEN /\ verdict' = "mismatch" /\ PrintT(<<"REJ", tid, k, "rtlil_differs_from_simulator", mm>>) /\ UNCHANGED <<w, mem, k, tid>>
+       ELSE /\ w' = wNew /\ mem' = mNew /\ k' = k + 1 /\ UNCHANGED <<verdict, tid>>
 
 Finish ==
     /\ verdict = "" /\ k = Len(D.steps) + 1
     /\ verdict' = "ACC" /\ PrintT(<<"ACC", tid, Len(D.steps)>>)
-    /\ UNCHANGED <<tid, k, w>>
+    /\ UNCHANGED <<tid, k, w, mem>>
 
 Next == Start \/ Step \/ Finish
 Spec == Init /\ [][Next]_vars
